@@ -1,66 +1,23 @@
 package c19
 
 import (
-	"bytes"
 	"fmt"
 	"os"
 	"testing"
 
-	mathjax "github.com/litao91/goldmark-mathjax"
-	"github.com/yuin/goldmark"
-	"github.com/yuin/goldmark/extension"
 	"github.com/zerx-lab/wordZero/pkg/document"
 	"github.com/zerx-lab/wordZero/pkg/markdown"
+	"wzverif/internal/kit"
 )
 
 func TestProbe(t *testing.T) {
+	if os.Getenv("PROBE") == "" {
+		t.Skip()
+	}
 	document.SetGlobalLevel(document.LogLevelSilent)
-	b, _ := os.ReadFile(os.Getenv("PROBE"))
-	md := goldmark.New(goldmark.WithExtensions(extension.GFM, extension.Footnote, mathjax.NewMathJax(mathjax.WithInlineDelim("$", "$"), mathjax.WithBlockDelim("$$", "$$"))))
-	var buf bytes.Buffer
-	md.Convert(b, &buf)
-	fmt.Println("---HTML---")
-	fmt.Println(buf.String())
-	o := markdown.DefaultOptions()
-	doc, err := markdown.NewConverter(o).ConvertBytes(b, o)
-	fmt.Println("---DOC--- err", err)
-	for _, e := range doc.Body.Elements {
-		switch x := e.(type) {
-		case *document.Paragraph:
-			st := ""
-			if x.Properties != nil && x.Properties.ParagraphStyle != nil {
-				st = x.Properties.ParagraphStyle.Val
-			}
-			fmt.Printf("P[%s]", st)
-			for _, r := range x.Runs {
-				f := ""
-				if r.Properties != nil {
-					if r.Properties.Bold != nil { f += "B" }
-					if r.Properties.Italic != nil { f += "I" }
-					if r.Properties.Strike != nil { f += "S" }
-					if r.Properties.FontFamily != nil { f += "F:" + r.Properties.FontFamily.ASCII }
-				}
-				fmt.Printf(" {%s|%q}", f, r.Text.Content)
-			}
-			fmt.Println()
-		case *document.Table:
-			fmt.Printf("T %d rows\n", len(x.Rows))
-			for _, row := range x.Rows {
-				for _, c := range row.Cells {
-					jc := ""
-					for _, p := range c.Paragraphs {
-						if p.Properties != nil && p.Properties.Justification != nil { jc = p.Properties.Justification.Val }
-						for _, r := range p.Runs {
-							f := ""
-							if r.Properties != nil { if r.Properties.Bold != nil { f += "B" }; if r.Properties.Italic != nil { f += "I" } }
-							fmt.Printf(" [%s %s %q]", jc, f, r.Text.Content)
-						}
-					}
-				}
-				fmt.Println()
-			}
-		default:
-			fmt.Printf("%T\n", e)
-		}
+	for _, s := range []string{"$$\na\n$$\n$$\nb\n$$\n", "$$\n$$\n$$\n$", "$$\n$$\n$$\n", "$$\n$$\n$$\n\n", "$$\n$$\n$$\nx", "$$a$$\n$$b$$\nx\n", "- f:\n  $$\n  a\n$$\nx\n"} {
+		o := markdown.DefaultOptions()
+		p, _ := kit.Try(func() { markdown.NewConverter(o).ConvertString(s, o) })
+		fmt.Printf("%q -> %v\n", s, p)
 	}
 }
